@@ -68,23 +68,28 @@ def _perturb(rng, units, p):
             u["wl"] = not u["wl"]
 
 
-def shape_layered(rng, maxu=8):
+def shape_layered(rng, maxu=8, minlayers=1, clean=False):
     pool = CAPS[:rng.randint(1, 3)]
-    nlayers = rng.randint(1, 4)
+    nlayers = rng.randint(minlayers, 4)
     sizes = [rng.randint(1, 3) for _ in range(nlayers)]
     while sum(sizes) > maxu:
         i = rng.randrange(len(sizes))
         if sizes[i] > 1:
             sizes[i] -= 1
-        elif len(sizes) > 1:
+        elif len(sizes) > minlayers:
             sizes.pop(i)
+        elif all(x == 1 for x in sizes):
+            break
     nlayers = len(sizes)
     names = _names(rng, sum(sizes))
     ra = rng.randint(0, nlayers - 1)
     wb = rng.randint(ra, nlayers - 1)
     units, layers = [], []
-    uniform = rng.random() < 0.55
-    skip = 0.15 if rng.random() < 0.3 else 0.0
+    uniform = clean or rng.random() < 0.55
+    if not clean and rng.random() < 0.12:
+        # both locks in the first layer and partial support: capabilities get blocked behind correctly locked routes
+        ra, wb, uniform = 0, 0, False
+    skip = 0.15 if rng.random() < 0.3 and not clean else 0.0
     for li, k in enumerate(sizes):
         layer = []
         for _ in range(k):
@@ -110,7 +115,7 @@ def shape_layered(rng, maxu=8):
                 for b in layers[lj]:
                     if rng.random() < skip:
                         edges.add((a, b))
-    _perturb(rng, units, rng.choice([0.0, 0.0, 0.0, 0.04, 0.1]))
+    _perturb(rng, units, 0.0 if clean else rng.choice([0.0, 0.0, 0.0, 0.04, 0.1]))
     return units, sorted(edges), layers
 
 
@@ -153,7 +158,7 @@ def shape_forkjoin(rng):
 
 
 def shape_deadbranch(rng):
-    units, edges, layers = shape_layered(rng, maxu=rng.randint(2, 5))
+    units, edges, layers = shape_layered(rng, maxu=rng.randint(2, 5), minlayers=2, clean=rng.random() < 0.7)
     edges = list(edges)
     pool = sorted({c for u in units for c in u["caps"]}, key=CAPS.index)
     nbr = rng.randint(1, 2)
@@ -161,26 +166,29 @@ def shape_deadbranch(rng):
         room = 8 - len(units)
         if room < 1:
             break
-        new_source = rng.random() < 0.15
-        length = rng.randint(1, min(3, room))
+        new_source = rng.random() < 0.1 and room >= 2
+        length = rng.randint(2 if new_source else 1, min(3, room))
+        quiet = rng.random() < 0.7
         names = _names(rng, 12)
         names = [n for n in names if n.lower() not in {u["name"].lower() for u in units}]
         if new_source:
             c = rng.choice(pool)
             prev = None
         else:
-            prev = rng.choice([i for i, u in enumerate(units) if u["caps"]])
+            cands = [i for i, u in enumerate(units) if u["caps"]]
+            inner = [i for i in cands if any(a == i for a, _ in edges)]
+            prev = rng.choice(inner if inner and rng.random() < 0.85 else cands)
             c = rng.choice(units[prev]["caps"])
         other = [x for x in CAPS if x != c]
         for k in range(length):
             idx = len(units)
             last = k == length - 1
-            if last and length > 1 or (last and rng.random() < 0.6):
+            if last and (length > 1 or rng.random() < 0.85):
                 # terminal the branch cannot get through: foreign capability, or none at all
                 caps = [] if rng.random() < 0.25 else [rng.choice(other)]
             else:
-                caps = [c] + ([rng.choice(other)] if rng.random() < 0.3 else [])
-            units.append(_unit(rng, names[k], caps, rl=rng.random() < 0.2, wl=rng.random() < 0.3))
+                caps = [c] + ([rng.choice(other)] if rng.random() < 0.1 else [])
+            units.append(_unit(rng, names[k], caps, rl=not quiet and rng.random() < 0.3, wl=not quiet and rng.random() < 0.4))
             if prev is not None:
                 edges.append((prev, idx))
             prev = idx
@@ -209,7 +217,7 @@ def shape_partial(rng):
     pool = CAPS[:rng.randint(2, 3)]
     n = rng.randint(2, 8)
     names = _names(rng, n)
-    units = [_unit(rng, names[i], _pick_caps(rng, pool, 0.5)) for i in range(n)]
+    units = [_unit(rng, names[i], _pick_caps(rng, pool, rng.choice([0.5, 0.7]))) for i in range(n)]
     rank = list(range(n))
     rng.shuffle(rank)
     dens = rng.choice([0.2, 0.35, 0.5])
@@ -245,7 +253,7 @@ def shape_tiny(rng):
     units = []
     for i in range(n):
         caps = [] if rng.random() < 0.2 else _pick_caps(rng, pool)
-        units.append(_unit(rng, names[i], caps, rng.random() < 0.7, rng.random() < 0.7))
+        units.append(_unit(rng, names[i], caps, rng.random() < 0.85, rng.random() < 0.85))
     edges = [(0, 1)] if n == 2 and rng.random() < 0.6 else []
     return units, edges
 
@@ -470,12 +478,12 @@ def run_mkproc(parts):
 
 def gen_parts(rng, kmin=0, kmax=5, nio=(0, 2), maxtotal=8):
     """an internal DAG of k units fed by input ports and drained by output ports; returns canonical parts (sorted orders)"""
+    k = rng.randint(kmin, kmax)
     while True:
-        k = rng.randint(kmin, kmax)
         nin = rng.randint(1, 2)
         nout = rng.randint(1, 3)
         nio_ = rng.randint(*nio)
-        if k + nin + nout + nio_ <= maxtotal:
+        if k + nin + nout + nio_ <= max(maxtotal, k + 2):
             break
     names = _names(rng, k + nin + nout + nio_)
     rng.shuffle(names)
@@ -559,6 +567,12 @@ def evaluate_load(desc: dict) -> dict:
         tags.append("impl:" + err["class"] + kind)
     model = ans["model"]
     tags.append("model:" + ("ok" if model["ok"] else model["error"]["class"]))
+    if not ok and not model["ok"]:
+        # informational only (never part of a verdict): how often the under-determined choices coincide
+        if model["error"]["class"] != impl["error"]["class"]:
+            tags.append("class-differs-from-model")
+        elif model["error"]["fields"] != impl["error"]["fields"]:
+            tags.append("culprit-differs-from-model:" + model["error"]["class"])
     tags.append("defects:" + ("+".join(ans["defects"]) or "-"))
     nt["C11"] = (not ok) or (not model["ok"]) or bool(ans["defects"])
     tags.append("units:%d" % len(desc["units"]))
@@ -610,7 +624,7 @@ def _corpus() -> list:
 
 
 def cases(tier: str) -> list:
-    n, nall = (20000, 150) if tier == "quick" else (200000, 1500)
+    n, nall = (20000, 300) if tier == "quick" else (200000, 3000)
     return _corpus() + ["all:%d" % i for i in range(nall)] + list(range(n))
 
 
@@ -633,7 +647,7 @@ def _run_all_perms(case, tier):
     """one internal DAG, ALL orders of its internal units (other orders and predecessor orders shuffled per order)"""
     rng = core.case_rng(NAME, case)
     kmax = 5 if tier == "quick" else 6
-    parts = gen_parts(rng, kmin=2, kmax=kmax, nio=(0, 1), maxtotal=kmax + 3)
+    parts = gen_parts(rng, kmin=2, kmax=kmax, nio=(0, 1), maxtotal=8)
     k = len(parts["internal"])
     agg = {pid: _trivial() for pid in PROPS}
     agg["C12"] = _trivial(app=True)
